@@ -845,8 +845,12 @@ class Polyhedron(Shape3D):
         # Handle zeros q vector cases up front to allow looping over faces without
         # double checking internally.
         q_sqs = np.sum(q * q, axis=-1)
-        zero_q = np.isclose(q_sqs, 0)
-        form_factor[zero_q] = self.volume
+        # Decide "q is zero" relative to the size of the polyhedron, and keep the
+        # phase of the polyhedron's position, which is first order in q.
+        centroid = self.centroid
+        extent_sq = np.max(np.sum((self.vertices - centroid) ** 2, axis=-1))
+        zero_q = np.isclose(q_sqs * extent_sq, 0)
+        form_factor[zero_q] = self.volume * np.exp(-1j * np.dot(q[zero_q], centroid))
 
         for face, eqn in zip(self.faces, self._equations):
             # Calculate each face's form factor as a polygon. This implementation aims
